@@ -20,7 +20,9 @@ PLUGIN = os.path.join(VERIF, "build", "ctpgx.so")
 CACHE = os.path.join(VERIF, ".cache", "facts")
 WITNESS_DIR = os.path.join(VERIF, "witness")
 
-WITNESS_TUS = ["w_core.cpp", "w_values.cpp", "w_lexer.cpp", "w_limits.cpp", "w_constexpr.cpp"]   # w_cexeval.cpp: compile-fail witness (C07)
+WITNESS_TUS = ["w_core.cpp", "w_values.cpp", "w_lexer.cpp", "w_limits.cpp", "w_constexpr.cpp"]
+# type-level witnesses: allowed not to compile (the failure is then reported by the property that owns the witness)
+OPTIONAL_TUS = ["w_moveonly.cpp"]   # w_cexeval.cpp: compile-fail witness (C07)
 
 
 class AnalysisIncomplete(Exception):
@@ -64,7 +66,11 @@ def repo_tus():
 
 
 def witness_tus():
-    return [os.path.join(WITNESS_DIR, n) for n in WITNESS_TUS]
+    return [os.path.join(WITNESS_DIR, n) for n in WITNESS_TUS + OPTIONAL_TUS]
+
+
+def is_optional(tu):
+    return os.path.basename(tu) in OPTIONAL_TUS
 
 
 def extract_one(tu, extra_flags=()):
@@ -259,9 +265,20 @@ class Facts:
     def __init__(self, tus, jobs=16):
         t0 = time.time()
         self.tus = list(tus)
+        self.failed = {}          # optional TU -> compiler diagnostic
+
+        def one(tu):
+            try:
+                return extract_one(tu)
+            except AnalysisIncomplete as e:
+                if is_optional(tu):
+                    self.failed[tu] = str(e)
+                    return None
+                raise
         with ThreadPoolExecutor(max_workers=jobs) as ex:
-            paths = list(ex.map(extract_one, self.tus))
-        self.units = [TUFacts(p, tu) for p, tu in zip(paths, self.tus)]
+            paths = list(ex.map(one, self.tus))
+        self.units = [TUFacts(p, tu) for p, tu in zip(paths, self.tus) if p is not None]
+        self.tus = [tu for p, tu in zip(paths, self.tus) if p is not None]
         self.extract_s = time.time() - t0
         self._by_q = {}
         for u in self.units:
